@@ -48,6 +48,13 @@ struct EpMon {
     unrel_slices: HashMap<(u8, u64), Vec<Option<(usize, Vec<u8>)>>>,
     // unreliable reassemblies at this endpoint: (channel, message id) -> clock of the last slice that arrived
     unrel_last_slice: HashMap<(u8, u64), u64>,
+    // acknowledgements: sequence numbers of the packets this endpoint processed, its own ack packets (sequence ->
+    // largest sequence acknowledged), the largest value an acknowledged ack packet may have trimmed, and whether
+    // packets reached it without the monitor seeing them
+    recv_seqs: std::collections::BTreeSet<u64>,
+    ack_sent: HashMap<u64, u64>,
+    trimmed_upto: Option<u64>,
+    ack_opaque: bool,
 }
 
 pub struct RHistory {
@@ -246,7 +253,8 @@ impl RHistory {
                         return true;
                     }
                 };
-                for _ in 0..64 {
+                // until the channel is empty (a packet of tiny messages can carry several hundred of them)
+                for _ in 0..4096 {
                     let got = self.do_recv(e, ch as u8);
                     if !got || self.res.panicked {
                         break;
@@ -381,8 +389,10 @@ impl RHistory {
                 if let Some(e) = v.get(1).and_then(parse_ep) {
                     self.emit(op);
                     self.mon(e).hostile_in = true;
+                    self.mon(e).ack_opaque = true;
                     if let Some(p) = self.pairs.get(&e).copied() {
                         self.mon(p).hostile_in = true;
+                        self.mon(p).ack_opaque = true;
                     }
                     self.feat("counters_warped");
                 }
@@ -395,6 +405,8 @@ impl RHistory {
                 self.emit(op);
                 self.mon(Ep::Srv(id)).hostile_in = true;
                 self.mon(Ep::Conn(k)).hostile_in = true;
+                self.mon(Ep::Srv(id)).ack_opaque = true;
+                self.mon(Ep::Conn(k)).ack_opaque = true;
                 self.feat("process_local_client");
             }
             28 => {
@@ -426,6 +438,7 @@ impl RHistory {
                 // bytes handed to process_packet_from without coming from the paired client
                 let id = v.get(1).and_then(|t| t.as_u64()).unwrap_or(0);
                 self.mon(Ep::Srv(id)).hostile_in = true;
+                self.mon(Ep::Srv(id)).ack_opaque = true;
                 self.feat("hostile_delivery");
                 self.emit(op);
             }
@@ -434,6 +447,25 @@ impl RHistory {
                 let was_disc = self.is_disc(Ep::Srv(id));
                 let obs = self.emit(op);
                 self.record_recv(Ep::Srv(id), ch as u8, &obs, was_disc);
+            }
+            41 => {
+                // C16: what to_bytes wrote for a packet of small messages (any number of them below 65536, ids and
+                // sequence number below 2^62) decodes to the same packet
+                let obs = self.emit(op);
+                let pt = v.get(2).cloned().unwrap_or_else(|| l(vec![]));
+                let f = pt.as_l().map(|x| x.to_vec()).unwrap_or_default();
+                let kind = f.first().and_then(|t| t.as_u64()).unwrap_or(9);
+                let ok62 = |t: Option<&Tree>| t.and_then(|t| t.as_u64()).map(|x| x < (1 << 62)).unwrap_or(false);
+                let msgs = f.get(3).and_then(|t| t.as_l()).map(|x| x.to_vec()).unwrap_or_default();
+                let wf = kind <= 1 && f.len() == 4 && ok62(f.get(1)) && msgs.len() < 65536
+                    && (kind == 1 || msgs.iter().all(|m| ok62(m.as_l().and_then(|x| x.first()))));
+                if let (true, Some([Tree::N(0), Tree::B(bytes)])) = (wf && !self.res.panicked, obs.as_l()) {
+                    let bytes = bytes.clone();
+                    let back = self.emit(&l(vec![n(40u8), b(&bytes)]));
+                    if back != l(vec![n(0u8), pt]) && !self.res.panicked {
+                        self.violate("C16", format!("a packet of {} small messages written by to_bytes does not decode to itself: {}", msgs.len(), back.to_text().chars().take(80).collect::<String>()));
+                    }
+                }
             }
             _ => {
                 self.emit(op);
@@ -612,7 +644,36 @@ impl RHistory {
                     Packet::SmallUnreliable { .. } => self.feat("pkt_small_unreliable"),
                     Packet::ReliableSlice { .. } => self.feat("pkt_reliable_slice"),
                     Packet::UnreliableSlice { .. } => self.feat("pkt_unreliable_slice"),
-                    Packet::Ack { ack_ranges, .. } => {
+                    Packet::Ack { ack_ranges, sequence } => {
+                        // C08/C16: an ack packet names only sequence numbers of packets the endpoint processed, and it
+                        // names the newest of them (overflow of the 64 ranges drops the oldest range; an acknowledged ack
+                        // packet lets the endpoint forget what that packet carried)
+                        let (opaque, newest, trimmed) = {
+                            let m = self.mon(e);
+                            (m.ack_opaque, m.recv_seqs.iter().next_back().copied(), m.trimmed_upto)
+                        };
+                        if !opaque {
+                            let total = ack_ranges.iter().fold(0u64, |a, r| a.saturating_add(r.end.saturating_sub(r.start)));
+                            let known = self.mon(e).recv_seqs.len() as u64;
+                            // among the first known + 1 numbers named there is one that was never received, if any is
+                            let stranger = ack_ranges.iter().flat_map(|r| r.clone()).take(known as usize + 1).find(|x| !self.mons.get(&e).map(|m| m.recv_seqs.contains(x)).unwrap_or(false));
+                            if let Some(x) = stranger {
+                                self.violate("C08", format!("{:?} acknowledges packet sequence number {} ({} numbers in all), it processed {} packets and none with that number", e, x, total, known));
+                                self.violate("C16", format!("the ack packet of {:?} names sequence number {} which is not in the set of received packets", e, x));
+                            }
+                            if let Some(mx) = newest {
+                                if trimmed.map_or(true, |t| mx > t) && !ack_ranges.iter().any(|r| r.contains(&mx)) {
+                                    self.violate("C16", format!("the ack packet of {:?} ({} ranges) leaves out {}, the newest sequence number it received", e, ack_ranges.len(), mx));
+                                }
+                            }
+                            if ack_ranges.len() > 64 {
+                                self.violate("C16", format!("ack packet of {:?} with {} ranges", e, ack_ranges.len()));
+                            }
+                        }
+                        if let Some(last) = ack_ranges.last() {
+                            let l = last.end.saturating_sub(1);
+                            self.mon(e).ack_sent.insert(*sequence, l);
+                        }
                         self.feat("pkt_ack");
                         if ack_ranges.len() > 1 {
                             self.feat("pkt_ack_multi_range");
@@ -761,6 +822,19 @@ impl RHistory {
             self.feat("hostile_delivery");
         } else {
             self.feat("genuine_delivery");
+        }
+        // what the destination will have to acknowledge, and what an acknowledged ack packet lets it forget
+        if !was_disc {
+            if let Ok(p) = decode_packet(&data) {
+                let m = self.mon(dst);
+                m.recv_seqs.insert(p.sequence());
+                if let Packet::Ack { ack_ranges, .. } = &p {
+                    let hit: Option<u64> = m.ack_sent.iter().filter(|(s, _)| ack_ranges.iter().any(|r| r.contains(s))).map(|(_, l)| *l).max();
+                    if let Some(l) = hit {
+                        m.trimmed_upto = Some(m.trimmed_upto.map_or(l, |t| t.max(l)));
+                    }
+                }
+            }
         }
         // acknowledgement bookkeeping for C15, from the bytes the destination is about to process
         if !was_disc {
